@@ -277,6 +277,12 @@ func TestVerif_C17Pipe(t *testing.T) {
 				return
 			}
 			defer r.cleanup()
+			if idx%2 == 1 {
+				// second and later connections share the output directory with the first one
+				pf := &pFrame{Seq: 50000, TimeOnMS: timeOnFor(50000), Pix: newPix(cam.ResX, cam.ResY, 3000), FPATempCK: 30000, FPAFFCCK: 30000}
+				r.serve(pacedFeed(cam, []*pFrame{pf}, 0), nil)
+				c.Count("pipeline_runs_after_a_reconnect", 1)
+			}
 			var rx int64
 			r.serve(pacedFeed(cam, frames, 2*time.Millisecond), func(name string) {
 				if name == "conn.frame.received" {
